@@ -125,6 +125,7 @@ type checkRun struct {
 	writeBase bool
 	replays   int
 	vacuous   []string
+	unreachable []string
 	coverOK   int
 	coverUnknown int
 }
@@ -249,7 +250,13 @@ func (cr *checkRun) run(start time.Time) int {
 		case "sat":
 			cr.coverOK++
 		case "unsat":
-			cr.vacuous = append(cr.vacuous, c.Name)
+			if strings.HasSuffix(c.Name, "#cover.reach") {
+				// an obligation whose program point is unreachable under the contract (dead
+				// defensive code such as "default: panic(...)") holds trivially; reported, not fatal
+				cr.unreachable = append(cr.unreachable, strings.TrimSuffix(c.Name, "#cover.reach"))
+			} else {
+				cr.vacuous = append(cr.vacuous, c.Name)
+			}
 		default:
 			cr.coverUnknown++
 		}
@@ -424,6 +431,9 @@ func (cr *checkRun) judge(start time.Time, stale []string) int {
 	cr.writeEvidence(start, reports, nObl, discharged, byBackend, solverSecs, violations, undecided, stale, missing, knownLines, knownNotes)
 	fmt.Printf("%s %s: %d obligations, %d discharged, %d undecided, %d violations, %d known findings, %.1fs\n",
 		p, cr.tier, nObl, discharged, len(undecided), len(violations), len(knownLines), time.Since(start).Seconds())
+	for _, v := range cr.unreachable {
+		fmt.Printf("NOTE: unreachable under the contract (holds trivially): %s\n", v)
+	}
 	for _, v := range cr.vacuous {
 		fmt.Printf("VACUOUS: %s (path condition unsatisfiable: contradictory requires/assumptions)\n", v)
 		engineErr = true
@@ -598,6 +608,7 @@ func (cr *checkRun) writeEvidence(start time.Time, reports []oblReport, nObl, di
 			"vacuity_covers_sat":       cr.coverOK,
 			"vacuity_covers_unknown":   cr.coverUnknown,
 			"vacuous":                  nonNil(cr.vacuous),
+			"unreachable_under_contract": nonNil(cr.unreachable),
 		},
 		"assumptions": assumptions,
 		"wall_s":      time.Since(start).Seconds(),
